@@ -35,7 +35,18 @@ def singles(rng, count):
 BOUNDARY_INDEX = [0, 1, 2, 3, 4095, 4096, 4097, 2 ** 31 - 1, 2 ** 31]
 BOUNDARY_NUM = [1, 9, 10, 2 ** 31 - 2, 2 ** 31 - 1, 2 ** 31, 2 ** 32, 10 ** 20]
 
-LITERALS = ['', ' ', 'a', 'abc ', '\n', 'x\ny', '\x80', 'é', '€ ', '$', '*', '.', '<', '<PRId32>', '1$', '0', 'hh', '\x00', '\x7f\x1f']
+def context_strings():
+    """every single character (ASCII, Latin-1, a few beyond) in every position relative to a directive / `%%`"""
+    out = []
+    cps = list(range(0, 0x180)) + [0x2028, 0x20ac, 0xfeff, 0xfffd, 0x10000, 0x1f600]
+    for cp in cps:
+        c = chr(cp)
+        if c == '%':
+            continue
+        out += [c, c + '%d', '%d' + c, c + '%%', '%%' + c, c + c + '%1$s' + c, '%' + c, '%' + c + 'd', '%5' + c + 'd', '%.' + c + 'd', '%l' + c]
+    return out
+
+LITERALS = ['', ' ', 'a', 'abc ', '\n', 'x\ny', '\x80', 'é', '€ ', '$', '*', '.', '<', '<PRId32>', '1$', '0', 'hh', '\x00', '\x7f\x1f', '\\', '\\n', '"', "'", '{0}', '\t', '\r\n', '&', '#', '-']
 
 def numeral(rng, n, zeros=True):
     s = str(n)
@@ -136,7 +147,7 @@ def gen_numbered_perm(rng):
         out.append(rng.choice(['', ' ', 'x']) + '%' + str(i + 1) + '$' + w + t)
     return ''.join(out)
 
-ALPHABET = "%%%$*.0123456789hlLqjzZtdiouxXeEfFgGaAcsCSpnm<>PRILEASTFMX#-+ 'I\n\x80"
+ALPHABET = "%%%%$*.0123456789hlLqjzZtdiouxXeEfFgGaAcsCSpnm<>PRILEASTFMX#-+ 'I\n\x80\\\"`~!@^&()[]{}|;:,/?=_\t\r\x00"
 
 def gen_garbage(rng):
     return ''.join(rng.choice(ALPHABET) for _ in range(rng.randint(0, 8)))
